@@ -104,6 +104,9 @@ def enabled(w, groups=GROUPS, vcap=8, ncap=4, pair_cap=4):
             ops += [("conv_rauw", (a, b), (b, a), False)]
         for n in nodes:
             ops += [("node_rename", n, None), ("node_rename", n, "n0")]
+        for v in vals[:2]:
+            # shape refinement: unknown + known, a later conflicting dimension, another rank
+            ops += [("merge_shapes", v, (None, 3)), ("merge_shapes", v, (2, 4)), ("merge_shapes", v, (2,))]
     if "new" in groups and nN < ncap:
         last = vals[-1] if vals else None
         first = vals[0] if vals else None
